@@ -153,7 +153,7 @@ def jobs(prog, tier):
 
 def make_vmess_body_job(security, chunk, padding, side, tier, nseg, packet=False):
     def job(ctx):
-        K = c05.K_of(tier)
+        K = c05.K_of(tier) if chunk == 'Auth' else 2     # unauthenticated size fields: two chunks in every tier (solver time)
         ex, p0, keys = c05.vmess_setup(ctx, security, chunk, padding, side, 'exact', 3 * K + 6)
         req, resp = c05.vmess_streams(security, chunk, padding, keys, K)
         genuine = req if side == 'server' else resp
@@ -227,7 +227,7 @@ def exact_authid_contracts(ex, plain, crc, fnv):
 
 def make_vmess_server_job(security, chunk, padding, command, tier, nseg):
     def job(ctx):
-        K = c05.K_of(tier)
+        K = c05.K_of(tier) if chunk == 'Auth' else 2
         prog = ctx.prog
         ex = vmess_server_exec(ctx, 'exact')
         cmdkey = z3.Array('cmdkey0', BV64, BV8)
